@@ -474,6 +474,8 @@ func checkC10(c *Ctx) {
 		}
 	}
 
+	checkC10EmitKey(c)
+
 	// ---- C10.tags ----
 	// permission tags are parsed into Creatable/Updatable/Readable: every permission combination the tag
 	// language can express must be producible by some path of its parsing block (path enumeration over the
